@@ -40,15 +40,21 @@ func Arithm(cfg *Config, expr syntax.ArithmExpr) (int, error) {
 	case *syntax.UnaryArithm:
 		switch expr.Op {
 		case syntax.Inc, syntax.Dec:
-			name := expr.X.(*syntax.Word).Lit()
-			old := atoi(cfg.envGet(name))
+			target, err := cfg.arithmTarget(expr.X)
+			if err != nil {
+				return 0, err
+			}
+			old, err := target.get()
+			if err != nil {
+				return 0, err
+			}
 			val := old
 			if expr.Op == syntax.Inc {
 				val++
 			} else {
 				val--
 			}
-			if err := cfg.envSet(name, strconv.FormatInt(val, 10)); err != nil {
+			if err := target.set(val); err != nil {
 				return 0, err
 			}
 			if expr.Post {
@@ -206,9 +212,62 @@ func atoiLargeBase(s string, base int64) int64 {
 	return n
 }
 
+// arithmTarget is the operand of an arithmetic assignment, increment or
+// decrement: a variable name, optionally followed by an index like a[i].
+type arithmTarget struct {
+	cfg   *Config
+	word  *syntax.Word
+	name  string
+	index syntax.ArithmExpr // nil for a plain name
+}
+
+func (cfg *Config) arithmTarget(x syntax.ArithmExpr) (arithmTarget, error) {
+	t := arithmTarget{cfg: cfg}
+	w, _ := x.(*syntax.Word)
+	if w != nil && len(w.Parts) == 1 {
+		switch wp := w.Parts[0].(type) {
+		case *syntax.Lit:
+			t.word, t.name = w, wp.Value
+		case *syntax.ParamExp:
+			if wp.Short && wp.Param != nil && wp.Index != nil {
+				t.word, t.name, t.index = w, wp.Param.Value, wp.Index
+			}
+		}
+	}
+	if t.name == "" {
+		return t, fmt.Errorf("arithmetic assignment requires a variable name")
+	}
+	return t, nil
+}
+
+func (t arithmTarget) get() (int64, error) {
+	if t.index == nil {
+		return atoi(t.cfg.envGet(t.name)), nil
+	}
+	str, err := Literal(t.cfg, t.word)
+	if err != nil {
+		return 0, err
+	}
+	return atoi(str), nil
+}
+
+func (t arithmTarget) set(val int64) error {
+	str := strconv.FormatInt(val, 10)
+	if t.index == nil {
+		return t.cfg.envSet(t.name, str)
+	}
+	return t.cfg.assignElem(t.name, t.cfg.Env.Get(t.name), t.index, str)
+}
+
 func (cfg *Config) assgnArit(b *syntax.BinaryArithm) (int, error) {
-	name := b.X.(*syntax.Word).Lit()
-	val := atoi(cfg.envGet(name))
+	target, err := cfg.arithmTarget(b.X)
+	if err != nil {
+		return 0, err
+	}
+	val, err := target.get()
+	if err != nil {
+		return 0, err
+	}
 	arg_, err := Arithm(cfg, b.Y)
 	if err != nil {
 		return 0, err
@@ -244,7 +303,7 @@ func (cfg *Config) assgnArit(b *syntax.BinaryArithm) (int, error) {
 	case syntax.ShrAssgn:
 		val >>= uint(arg)
 	}
-	if err := cfg.envSet(name, strconv.FormatInt(val, 10)); err != nil {
+	if err := target.set(val); err != nil {
 		return 0, err
 	}
 	return int(val), nil
